@@ -138,6 +138,7 @@ func verifC01Session(m *mon.M, i int, big bool) {
 					return false
 				}
 				d.delivered++
+				m.Case() // one evaluation per message read back (plus one per session)
 				m.Count("messages_read_back", 1)
 				m.Classf("t%d/ts:%s/len:%s/cs:%d/seg:%s", classType(want.Type), verifTsClass(want.Timestamp), verifLenClass(len(want.Payload), d.chunk), csClass(d.chunk), d.q.Seg.Name())
 				if relay && di == 0 {
@@ -334,6 +335,7 @@ func TestVerif_C01_Concurrent(t *testing.T) {
 						m.Violationf("c01:message-differs:concurrent", rep, "dir %d message %d: wrote %v read %v: %s", di, k, want, verifFromLib(got), why)
 						return
 					}
+					m.Case()
 					m.Count("messages_read_back", 1)
 					m.Classf("t%d/ts:%s/len:%s/cs:%d", classType(want.Type), verifTsClass(want.Timestamp), verifLenClass(len(want.Payload), p.chunk[k]), csClass(p.chunk[k]))
 				}
